@@ -42,7 +42,10 @@ CONSTANTS Peers,        \* peer names
           MaxAge,       \* ages saturate here (>= Grace)
           Silence,      \* background ticker interval in units; 0 = ticker never fires in the horizon
           HasForce,     \* include ForceTrim
-          DecayMax,     \* bound of the decaying tag "d" (BumpSumBounded(0, DecayMax), DecayFixed(1)); 0 = none
+          DecayMax,     \* bound of the values of the decaying tag "d" in the bounded model; 0 = no decaying tag
+          DecayKinds,   \* decay functions exercised (one per behaviour, chosen in Init), see DecayRes
+          BumpKinds,    \* bump functions exercised (one per behaviour), see BumpRes
+          Deltas,       \* deltas Bump is called with
           DecayEvery,   \* decay interval of "d" in units (the decayer's resolution is one unit)
           Split,        \* concurrent variant: TrimOpenConns as two steps (Collect, Select) with notifications,
                         \* tag and protection calls of other goroutines in between
@@ -64,14 +67,15 @@ VARIABLES kind,    \* [Peers -> {"n","t","c"}]  not tracked / temporary entry (e
           prot,    \* [Peers -> SUBSET protection tags]
           count,   \* connCount
           phase,   \* units since the last background ticker fire (0 when Silence = 0)
-          dec,     \* [Peers -> 1..DecayMax \cup {NoTag}]  value of the decaying tag "d"
+          dec,     \* [Peers -> 0..DecayMax \cup {NoTag}]  value of the decaying tag "d"
+          dcfg,    \* [d |-> decay function, b |-> bump function, closed |-> the tag has been closed]
           dph,     \* units since the decaying tag's last visit round
           tr,      \* the trim in progress (concurrent variant): candidates collected, those whose entry has
                    \* been deleted since (the trim still holds the stale peerInfo), target, foreign steps so far
           op       \* output only
 
-vars == <<kind, cs, tg, val, age, prot, count, phase, dec, dph, tr, op>>
-View == <<kind, cs, tg, val, age, prot, count, phase, dec, dph, tr>>
+vars == <<kind, cs, tg, val, age, prot, count, phase, dec, dph, dcfg, tr, op>>
+View == <<kind, cs, tg, val, age, prot, count, phase, dec, dph, dcfg, tr>>
 TrOff == [on |-> FALSE, c |-> {}, s |-> {}, n |-> 0, b |-> 0]
 
 RECURSIVE SumF(_, _)
@@ -92,6 +96,7 @@ Init == /\ kind = [p \in Peers |-> "n"]
         /\ phase = 0
         /\ dec = [p \in Peers |-> NoTag]
         /\ dph = 0
+        /\ dcfg \in [d : DecayKinds, b : BumpKinds, closed : {FALSE}]
         /\ tr = TrOff
         /\ op = [name |-> "init"]
 
@@ -107,7 +112,7 @@ Connected(c) ==
           \* a fresh entry and a temporary entry both take firstSeen = now
           /\ age' = IF kind[p] = "c" THEN age ELSE [age EXCEPT ![p] = 0]
           /\ count' = count + 1
-  /\ UNCHANGED <<tg, val, prot, phase, dec, dph>>
+  /\ UNCHANGED <<tg, val, prot, phase, dec, dph, dcfg>>
   /\ op' = [name |-> "connected", c |-> c, p |-> p, dup |-> dup]
 
 Disconnected(c) ==
@@ -123,7 +128,7 @@ Disconnected(c) ==
                   /\ age' = [age EXCEPT ![p] = 0]
                   /\ dec' = [dec EXCEPT ![p] = NoTag]
      ELSE UNCHANGED <<kind, tg, val, age, dec>>
-  /\ UNCHANGED <<prot, phase, dph>>
+  /\ UNCHANGED <<prot, phase, dph, dcfg>>
   /\ op' = [name |-> "disconnected", c |-> c, p |-> p, dup |-> ~hit]
 
 ----------------------------------------------------------------------------
@@ -133,7 +138,7 @@ SetTag(p, t, v) ==
   /\ kind' = IF kind[p] = "n" THEN [kind EXCEPT ![p] = "t"] ELSE kind   \* tagInfoFor: temp entry, firstSeen = now
   /\ tg' = [tg EXCEPT ![p][t] = v]
   /\ val' = [val EXCEPT ![p] = @ + v - OldVal(p, t)]
-  /\ UNCHANGED <<cs, age, prot, count, phase, dec, dph>>
+  /\ UNCHANGED <<cs, age, prot, count, phase, dec, dph, dcfg>>
 
 Tag(p, t, v) == SetTag(p, t, v) /\ op' = [name |-> "tag", p |-> p, t |-> t, v |-> v]
 
@@ -146,7 +151,7 @@ Untag(p, t) ==
   /\ IF kind[p] = "n" THEN UNCHANGED <<tg, val>>
      ELSE /\ tg' = [tg EXCEPT ![p][t] = NoTag]
           /\ val' = [val EXCEPT ![p] = @ - OldVal(p, t)]
-  /\ UNCHANGED <<kind, cs, age, prot, count, phase, dec, dph>>
+  /\ UNCHANGED <<kind, cs, age, prot, count, phase, dec, dph, dcfg>>
   /\ op' = [name |-> "untag", p |-> p, t |-> t]
 
 ----------------------------------------------------------------------------
@@ -154,34 +159,62 @@ Untag(p, t) ==
 
 DecVal(p) == IF dec[p] = NoTag THEN 0 ELSE dec[p]
 
-Bump(p) ==       \* d.Bump(p, 1) with BumpSumBounded(0, DecayMax)
-  LET new == Min(DecVal(p) + 1, DecayMax) IN
-  /\ DecayMax > 0
-  /\ kind' = IF kind[p] = "n" THEN [kind EXCEPT ![p] = "t"] ELSE kind
-  /\ dec' = [dec EXCEPT ![p] = new]
-  /\ val' = [val EXCEPT ![p] = @ + new - DecVal(p)]
-  /\ UNCHANGED <<cs, tg, age, prot, count, phase, dph>>
-  /\ op' = [name |-> "bump", p |-> p]
+\* A DecayFn returns (after, rm).  The contract (core/connmgr/decay.go): "the tag is erased if rm is true",
+\* otherwise its value becomes `after` - so when rm is set `after` is irrelevant and the erased tag
+\* contributes nothing to the peer's total, whatever `after` was.
+DecayRes(k, v) ==
+  CASE k = "fixed1"   -> <<v - 1, v - 1 <= 0>>              \* DecayFixed(1): lands on 0 exactly
+    [] k = "fixed2"   -> <<v - 2, v - 2 <= 0>>              \* DecayFixed(2): may overshoot below 0
+    [] k = "half"     -> <<v \div 2, v \div 2 <= 0>>        \* DecayLinear(0.5)
+    [] k = "none"     -> <<v, FALSE>>                        \* DecayNone
+    [] k = "residual" -> IF v <= 1 THEN <<1, TRUE>> ELSE <<v - 1, FALSE>>   \* custom: removal with after # 0
+    [] k = "zerokeep" -> <<0, FALSE>>                        \* custom: value 0, tag kept
+Decayed(k, v) == IF DecayRes(k, v)[2] THEN NoTag ELSE DecayRes(k, v)[1]
+
+Max(a, b) == IF a > b THEN a ELSE b
+BumpRes(k, v, dl) ==
+  CASE k = "bounded"   -> Max(0, Min(v + dl, DecayMax))      \* BumpSumBounded(0, DecayMax)
+    [] k = "unbounded" -> v + dl                             \* BumpSumUnbounded (bounded model: see Bump)
+    [] k = "overwrite" -> dl                                 \* BumpOverwrite
+
+Bump(p, dl) ==   \* d.Bump(p, dl), executed by the decayer's loop; refused with an error once the tag is closed
+  LET new == BumpRes(dcfg.b, DecVal(p), dl) IN
+  /\ DecayMax > 0 /\ new <= DecayMax
+  /\ IF dcfg.closed THEN UNCHANGED <<kind, dec, val>>
+     ELSE /\ kind' = IF kind[p] = "n" THEN [kind EXCEPT ![p] = "t"] ELSE kind
+          /\ dec' = [dec EXCEPT ![p] = new]
+          /\ val' = [val EXCEPT ![p] = @ + new - DecVal(p)]
+  /\ UNCHANGED <<cs, tg, age, prot, count, phase, dph, dcfg>>
+  /\ op' = [name |-> "bump", p |-> p, dl |-> dl, err |-> dcfg.closed]
 
 DRemove(p) ==    \* d.Remove(p): the loop calls tagInfoFor first, so an untracked peer gets a temporary entry
   /\ DecayMax > 0
-  /\ kind' = IF kind[p] = "n" THEN [kind EXCEPT ![p] = "t"] ELSE kind
-  /\ dec' = [dec EXCEPT ![p] = NoTag]
-  /\ val' = [val EXCEPT ![p] = @ - DecVal(p)]
-  /\ UNCHANGED <<cs, tg, age, prot, count, phase, dph>>
-  /\ op' = [name |-> "dremove", p |-> p]
+  /\ IF dcfg.closed THEN UNCHANGED <<kind, dec, val>>
+     ELSE /\ kind' = IF kind[p] = "n" THEN [kind EXCEPT ![p] = "t"] ELSE kind
+          /\ dec' = [dec EXCEPT ![p] = NoTag]
+          /\ val' = [val EXCEPT ![p] = @ - DecVal(p)]
+  /\ UNCHANGED <<cs, tg, age, prot, count, phase, dph, dcfg>>
+  /\ op' = [name |-> "dremove", p |-> p, err |-> dcfg.closed]
+
+DClose ==        \* d.Close(): the loop removes the tag from every peer; a second Close is a no-op
+  /\ DecayMax > 0
+  /\ dcfg' = [dcfg EXCEPT !.closed = TRUE]
+  /\ dec' = [p \in Peers |-> NoTag]
+  /\ val' = [p \in Peers |-> val[p] - DecVal(p)]
+  /\ UNCHANGED <<kind, cs, tg, age, prot, count, phase, dph>>
+  /\ op' = [name |-> "dclose"]
 
 ----------------------------------------------------------------------------
 (* protection *)
 
 Protect(p, x) ==
   /\ prot' = [prot EXCEPT ![p] = @ \cup {x}]
-  /\ UNCHANGED <<kind, cs, tg, val, age, count, phase, dec, dph>>
+  /\ UNCHANGED <<kind, cs, tg, val, age, count, phase, dec, dph, dcfg>>
   /\ op' = [name |-> "protect", p |-> p, x |-> x]
 
 Unprotect(p, x) ==
   /\ prot' = [prot EXCEPT ![p] = @ \ {x}]
-  /\ UNCHANGED <<kind, cs, tg, val, age, count, phase, dec, dph>>
+  /\ UNCHANGED <<kind, cs, tg, val, age, count, phase, dec, dph, dcfg>>
   /\ op' = [name |-> "unprotect", p |-> p, x |-> x, res |-> (prot[p] \ {x}) # {}]
 
 ----------------------------------------------------------------------------
@@ -243,7 +276,7 @@ TrimInfo(a) == [elig |-> WithConns(Cands(a)),
 
 Trim ==
   /\ ApplyPrune(Pruned(age), age, dec)
-  /\ UNCHANGED <<cs, prot, count, phase, dph>>
+  /\ UNCHANGED <<cs, prot, count, phase, dph, dcfg>>
   /\ op' = [name |-> "trim", allowed |-> TrimAllowed(age), pruned |-> Pruned(age), info |-> TrimInfo(age)]
 
 Tick ==
@@ -252,12 +285,11 @@ Tick ==
       fire == Silence # 0 /\ ph = 0 /\ count >= High
       dp == IF DecayMax = 0 THEN 0 ELSE (dph + 1) % DecayEvery
       visit == DecayMax # 0 /\ dp = 0
-      \* DecayFixed(1): one less; the tag is deleted when it reaches zero
-      d == [p \in Peers |-> IF visit /\ dec[p] # NoTag THEN (IF dec[p] - 1 <= 0 THEN NoTag ELSE dec[p] - 1) ELSE dec[p]] IN
+      d == [p \in Peers |-> IF visit /\ dec[p] # NoTag THEN Decayed(dcfg.d, dec[p]) ELSE dec[p]] IN
   /\ phase' = ph
   /\ dph' = dp
   /\ IF fire THEN ApplyPrune(Pruned(a), a, d) ELSE ApplyPrune({}, a, d)
-  /\ UNCHANGED <<cs, prot, count>>
+  /\ UNCHANGED <<cs, prot, count, dcfg>>
   /\ op' = [name |-> "tick", bg |-> fire, decay |-> visit,
             allowed |-> IF fire THEN TrimAllowed(a) ELSE {{}},
             pruned |-> IF fire THEN Pruned(a) ELSE {},
@@ -282,7 +314,7 @@ ForceAllowed ==
 
 ForceTrim ==
   /\ HasForce
-  /\ UNCHANGED <<kind, cs, tg, val, age, prot, count, phase, dec, dph>>
+  /\ UNCHANGED <<kind, cs, tg, val, age, prot, count, phase, dec, dph, dcfg>>
   /\ op' = [name |-> "forcetrim", allowed |-> ForceAllowed, info |-> TrimInfo(age)]
 
 ----------------------------------------------------------------------------
@@ -297,7 +329,7 @@ ForceTrim ==
 Collect ==
   /\ Split /\ ~tr.on /\ TrimRuns(age)
   /\ tr' = [on |-> TRUE, c |-> Cands(age), s |-> {}, n |-> Target(age), b |-> 0]
-  /\ UNCHANGED <<kind, cs, tg, val, age, prot, count, phase, dec, dph>>
+  /\ UNCHANGED <<kind, cs, tg, val, age, prot, count, phase, dec, dph, dcfg>>
   /\ op' = [name |-> "collect", cands |-> Cands(age), target |-> Target(age)]
 
 MayPrune == IF tr.n > 0 THEN { p \in tr.c \ tr.s : kind[p] = "t" } ELSE {}
@@ -308,7 +340,7 @@ Select ==
         /\ ApplyPrune(P, age, dec)
         /\ op' = [name |-> "select", pruned |-> P, mayprune |-> MayPrune, stale |-> tr.s]
   /\ tr' = TrOff
-  /\ UNCHANGED <<cs, prot, count, phase, dph>>
+  /\ UNCHANGED <<cs, prot, count, phase, dph, dcfg>>
 
 \* calls other goroutines may make at any time
 Foreign == \/ \E c \in Conns : Connected(c) \/ Disconnected(c)
@@ -319,7 +351,8 @@ Gone == { p \in Peers : kind[p] # "n" /\ kind'[p] = "n" }
 
 Next == \/ /\ ~tr.on
            /\ \/ Foreign
-              \/ \E p \in TagPeers : Bump(p) \/ DRemove(p)
+              \/ \E p \in TagPeers : (\E dl \in Deltas : Bump(p, dl)) \/ DRemove(p)
+              \/ DClose
               \/ Tick
               \/ Trim
               \/ ForceTrim
@@ -340,7 +373,7 @@ TypeOK == /\ \A p \in Peers : /\ kind[p] \in {"n", "t", "c"}
                               /\ age[p] \in 0..MaxAge
                               /\ prot[p] \subseteq ProtTagsOf[p]
                               /\ \A t \in Tags : tg[p][t] \in Vals \cup {NoTag}
-                              /\ dec[p] \in (1..DecayMax) \cup {NoTag}
+                              /\ dec[p] \in (0..DecayMax) \cup {NoTag}
           /\ count \in 0..Cardinality(Conns)
           /\ tr.s \subseteq tr.c /\ tr.c \subseteq Peers /\ (~tr.on => tr = TrOff)
 
